@@ -186,7 +186,7 @@ Verdict ==
   CASE E.e \in {"TaskStart", "Submit", "TaskEnd", "TaskRaise", "AwaitCall", "AwaitReturn", "NextReturn", "Cancel", "Forward"} -> TaskVerdict
     [] E.e \in {"ClientCall", "ClientReturn", "Probe"} -> ClientVerdict
     [] E.e = "BossState" -> BossVerdict
-    [] E.e = "Crash" -> "ok"
+    [] E.e \in {"Crash", "NodeExit"} -> "ok"      \* (NodeExit: a runtime process ended; judged against Shutdown.tla, not here)
     [] E.e = "Quiescent" -> QuiescentVerdict
     [] OTHER -> "unknown-event"
 
